@@ -69,7 +69,13 @@ type host struct {
 }
 
 func newHost(ctx context.Context) (*host, error) {
-	rt := wazero.NewRuntimeWithConfig(ctx, wazero.NewRuntimeConfigCompiler().WithCloseOnContextDone(true))
+	// production (arc/go/runtime, core) uses the optimizing compiler engine; C19_ENGINE=interpreter
+	// selects wazero's interpreter (used to tell compiler-engine problems from Arc problems)
+	cfg := wazero.NewRuntimeConfigCompiler()
+	if os.Getenv("C19_ENGINE") == "interpreter" {
+		cfg = wazero.NewRuntimeConfigInterpreter()
+	}
+	rt := wazero.NewRuntimeWithConfig(ctx, cfg.WithCloseOnContextDone(true))
 	stringsState := stlstrings.NewProgramState()
 	seriesState := series.NewProgramState()
 	channelState := stlchannels.NewProgramState(nil)
